@@ -226,6 +226,27 @@ pub fn gen16(r: &mut Rng, n: usize, thorough: bool) -> Vec<String> {
     ] {
         out.push(format!("dec {}", hex(doc)));
     }
+    // dictionaries that repeat a key with different values ("key order and uniqueness are not enforced": well-formed; the
+    // values returned are the document's - the later entry of a key replaces the earlier one, as everywhere in the client)
+    for doc in [
+        &b"d1:ai1e1:ai2ee"[..], b"d0:le0:i0ee", b"d1:k1:x1:k1:y1:k1:ze", b"ld1:ai1e1:bi2e1:ai3eee", b"d1:ad1:bi1e1:bi2ee1:ai5ee",
+        b"d1:ai1e1:bi2e1:ale1:bdee", b"d4:infoi1e4:infoi2ee",
+    ] {
+        out.push(format!("dec {}", hex(doc)));
+    }
+    for _ in 0..40 {
+        let keys: [&[u8]; 4] = [b"a", b"", b"info", b"k"];
+        let k = *r.pick(&keys);
+        let mut doc = vec![b'd'];
+        for j in 0..2 + r.below(2) {
+            let key = if j == 1 && r.coin() { *r.pick(&keys) } else { k };
+            doc.extend_from_slice(format!("{}:", key.len()).as_bytes());
+            doc.extend_from_slice(key);
+            doc.extend(encode_value(&gen_value(r, 1)));
+        }
+        doc.push(b'e');
+        out.push(format!("dec {}", hex(&doc)));
+    }
     // deeply nested well-formed values (lists, dictionaries, mixed), closed and with one terminator missing
     for depth in [1usize, 2, 31, 32, 33, 63, 64, 65, 66, 100, 128, 129, 200, 300] {
         let lists = [vec![b'l'; depth], vec![b'e'; depth]].concat();
